@@ -9,8 +9,17 @@ NOTES = {
     "C15": "partial: the theorems are about the goroutine LTS of Model/Async (all element counts, all schedules); real-memory data races, scheduler fairness and GOMAXPROCS effects are outside the model — the race detector, controlled completion orders and the regenerated skeleton obligations (translator) are supporting evidence for that part",
     "C10": "partial by design: C10_malformed excludes the known finding K1 (sigil-leaf key) and non-canonical numerals, both stated explicitly in the theorem; K1 is listed in known_findings.txt",
 }
-TEXT = {
+from importlib.machinery import SourceFileLoader
+GEN_FOR = SourceFileLoader("vcheck", os.path.join(ROOT, "check")).load_module().GEN_FOR
+GEN_WHAT = {
+    "ParserGenEq": "parser loops, parseField, ParseList/ParseObject", "StrGenEq": "unquoteJSON, quoteJSON, ParseFile",
+    "TreeFormGenEq": "tree-form methods, serialize(), FormatString", "ListGenEq": "63 list methods", "ListGen2Eq": "Filter*, Min/Max, NewListFrom",
+    "ObjectGenEq": "41 object methods, parseVal, native", "CloneGenEq": "copy/isEqual/Clone/Equals (refinement)",
+    "Async": "skeletons of the four async methods", "WriteSet": "write sets of every method", "Api": "classification of every interface method",
 }
+def gen_text(pid):
+    mods = [m.split(".")[-1] for m in GEN_FOR.get(pid, [])]
+    return "; ".join("%s (%s)" % (m, GEN_WHAT.get(m, "")) for m in mods)
 checks, na = [], []
 for p in props:
     pid = p["id"]
@@ -28,10 +37,10 @@ for p in props:
         "replay_cmd_template": "./check %s --replay {path}" % pid,
         "engine": "lean-model+correspondence",
         "level_claimed": {"category": "proof",
-                          "text": "Lean 4 theorems (lean/Anytype/Props/%s.lean) about a hand-written executable model of the code, for all inputs/states/histories with no bound; the model is tied to /repo on every run by a correspondence run that re-executes the recorded behaviour of the real library on the same Lean definitions, and the property's specification is evaluated as a monitor on the implementation's own outputs" % pid,
+                          "text": "Lean 4 theorems (lean/Anytype/Props/%s.lean) about an executable model of the code, for all inputs/states/histories with no bound; the model is tied to /repo on every run in two ways: (1) translators regenerate Lean definitions from the current Go source of the functions the property rests on and their equality with (or refinement of) the model is re-proved by the kernel — %s; (2) a correspondence run re-executes the recorded behaviour of the real library on the same Lean definitions, and the property's specification is evaluated as a monitor on the implementation's own outputs" % (pid, gen_text(pid)),
                           "design_ref": "DESIGN.md §6-%s" % pid},
-        "level_note": NOTES.get(pid, "trusted: Lean kernel (axioms propext, Classical.choice, Quot.sound only, audited per run); the model<->implementation tie is sampled, not proved; Go stdlib is modelled (stdlib-conformance stratum on every run); explicit hypotheses in theorem statements stand for unverified library behaviour (e.g. FmtContract for shortest float formatting)"),
-        "technique": "Lean 4 proof over a hand-written model + differential correspondence check (Go harness -> compiled Lean driver) + specification monitors",
+        "level_note": NOTES.get(pid, "trusted: Lean kernel (axioms propext, Classical.choice, Quot.sound only, audited per run); the translators' reading of Go (restructuring rules listed at the top of harness/cmd/vextract/*.go); for functions that are not translated and for the Go standard library the model<->implementation tie is sampled, not proved; Go stdlib is modelled (stdlib-conformance stratum on every run); explicit hypotheses in theorem statements stand for unverified library behaviour (e.g. FmtContract for shortest float formatting)"),
+        "technique": "Lean 4 proof over an executable model + model regenerated from source by a translator with equality/refinement re-proved on every run + differential correspondence check (Go harness -> compiled Lean driver) + specification monitors",
     })
 m = {"version": 1, "setup_cmd": "./check --setup",
      "hooks": {"guard": "verif", "enable": "go build -tags verif (no hook is needed: every property is observable through the public API)",
